@@ -20,7 +20,7 @@ func init() {
 		ID: "C17", Level: "model_checking",
 		Rule:   "ELX fault enumeration on the real ServeConn: a recorded well-formed client byte stream (3 requests with CONTINUATION, padded DATA, priority, trailers, WINDOW_UPDATE, PING, RST_STREAM) cut at EVERY byte offset (EOF) with handlers returning before or after the cut; every single structural mutation of it (delete / duplicate / swap frames, every flag bit, every type 0..10, stream id in {0, +2, -2, even}, length field +-1; pairs in thorough); every sequence of <= 3 (quick) / 4 (thorough) frames of a 'soup' alphabet with malformed sizes; the server's k-th transport Write failing for every k; a peer that stops reading and then closes. Oracle: no line from any recover() and no unrecovered panic; after the peer is gone, handlers have returned and armed virtual timers fired, ServeConn has returned and no managed goroutine is left; pool tracker silent (no double release, no request context recycled while its handler runs). Non-trivial: every faulted scenario; distinct by scenario.",
 		Assume: []string{"canonical internal schedule between events (schedule-dependent teardown races are explored in C19)"},
-		Run:    runC17, Replay: replayC17, Policies: 1, QuickS: 120, ThoroughS: 900,
+		Run:    runC17, Replay: replayC17, Policies: 1, QuickS: 200, ThoroughS: 900,
 	})
 }
 
